@@ -1595,6 +1595,21 @@ func (it *codecInterp) assign(st *istate, lhs ast.Expr, v *aval) {
 			return
 		}
 		if lv, ok := it.info.ObjectOf(id).(*types.Var); ok {
+			// the key itself is replaced by a constant before it is encoded: every key of the class
+			// gets the code of that constant (`if k == 0 { k = 0 }` folds -0 into +0)
+			if cur := st.env[lv]; cur != nil && cur.kind == avKey && it.cl != nil && it.defect == "" {
+				switch {
+				case v.kind == avFloat && v.fclass == "" && it.cl.float:
+					same := v.fconst == 0 && !math.Signbit(v.fconst) && it.cl.s == 0 && it.cl.lo.Sign() == 0 && it.cl.hi.Sign() == 0 && !it.cl.nan && !it.cl.inf
+					if !same {
+						it.defect = fmt.Sprintf("the key is replaced by the constant %v before it is encoded: the keys of class %s get the code of another key, and Restore cannot give them back", v.fconst, it.cl.name)
+					}
+				case v.kind == avWord && v.a == 0 && !it.cl.float:
+					if it.cl.lo.Cmp(it.cl.hi) != 0 {
+						it.defect = fmt.Sprintf("the key is replaced by the constant %s before it is encoded: every key of class %s gets one code", v, it.cl.name)
+					}
+				}
+			}
 			st.env[lv] = v
 			return
 		}
